@@ -4,6 +4,7 @@ import Capella.Model.XmlParse
 import Capella.Model.XmlSpec
 import Capella.Model.XmlEdit
 import Capella.Model.XmlNsUpdate
+import Capella.Model.XmlLoose
 import Capella.Gen.Ns
 namespace Capella.Driver.Xml
 open Lean Capella.Driver Capella.Xml
@@ -109,8 +110,8 @@ def handle (op : String) (j : Json) : Except String Json := do
     let d ← docOf (← j.getObjVal? "doc")
     let after ← docOf (← j.getObjVal? "after")
     let es ← (← (← j.getObjVal? "edits").getArr?).toList.mapM editOf
-    let bad := firstBad es d 0
-    pure (Json.mkObj [("ok", okAll es d), ("same", Doc.beq (applyAll es d) after),
+    let bad := firstBadE es d 0
+    pure (Json.mkObj [("ok", okAllE es d), ("ok_strict", okAll es d), ("same", Doc.beq (applyAll es d) after),
       ("first_bad", match bad with | some i => Json.num (JsonNumber.fromNat i) | none => Json.null)])
   | "xml.updateNs" =>
     -- `ModelFile.update_namespaces(viewpoints)` with the live plugin table
@@ -229,6 +230,11 @@ def handle (op : String) (j : Json) : Except String Json := do
         let canonOk := match parse out with | some r => Doc.beq r (canonDoc d) | none => false
         pure (Json.mkObj [("out", jstr out), ("wf", wf), ("reload_is_canon", canonOk),
           ("info_equal", infoEqB (canonDoc d) d)])
+      else if wfDocE d then
+        -- Capella-shaped up to `""` texts: the statement of `save_reload_empty`
+        let canonOk := match parse out with | some r => Doc.beq r (canonDoc (dropDoc d)) | none => false
+        pure (Json.mkObj [("out", jstr out), ("wf", wf), ("wfE", true), ("reload_is_canon_drop", canonOk),
+          ("info_equal", infoEqB (canonDoc (dropDoc d)) (dropDoc d))])
       else pure (Json.mkObj [("out", jstr out), ("wf", wf)])
   | "xml.edit" =>
     let d ← docOf (← j.getObjVal? "doc")
